@@ -9,7 +9,7 @@
 (*   Set          Progress.set                 l.231                       *)
 (*   SetMessage   Progress.set_message         l.262                       *)
 (*   Exit         Progress.__exit__  (= one more increment)  l.207         *)
-(* Update(i, total, force) is _update_every_N_percent with N = 1: the      *)
+(* Update(i, total, force, N) is _update_every_N_percent: the               *)
 (* module-global `recent` is shared by every Progress object, so nested    *)
 (* objects interfere exactly as in the code.  Fractions are integers:      *)
 (* `recent` counts hundredths, emitted fractions are per mille.            *)
@@ -26,33 +26,34 @@ Outcome(r, emits, err) == [recent |-> r, emits |-> emits, err |-> err]
 \* per-mille values a forced emission of i/total may be rounded to
 ForcedPm(i, total) == {pm \in ((1000 * i) \div total)..((1000 * i) \div total + 1) : (pm - 1) * total < 1000 * i /\ 1000 * i < (pm + 1) * total}
 
-Update(recent, i, total, force) ==
+\* N: the object's notification step in percent (Progress(..., N=10); default 1)
+Update(recent, i, total, force, N) ==
     IF total = 0 THEN {Outcome(recent, <<>>, "ZeroDivisionError")}
     ELSE LET r0 == IF i = 0 THEN 0 - 1 ELSE recent
              done(r) == IF i >= total THEN 0 - 1 ELSE r
-             stepped == LET r1 == IF r0 < 0 THEN 0 ELSE r0 + 1 IN {Outcome(done(r1), <<10 * r1>>, "")}
+             stepped == LET r1 == IF r0 < 0 THEN 0 ELSE r0 + N IN {Outcome(done(r1), <<10 * r1>>, "")}
              other == IF force THEN {Outcome(done(r0), <<pm>>, "") : pm \in ForcedPm(i, total)} ELSE {Outcome(done(r0), <<>>, "")}
-         IN IF r0 < 0 \/ 100 * i > (r0 + 1) * total THEN stepped
-            ELSE IF 100 * i = (r0 + 1) * total THEN stepped \cup other      \* exactly on the boundary
+         IN IF r0 < 0 \/ 100 * i > (r0 + N) * total THEN stepped
+            ELSE IF 100 * i = (r0 + N) * total THEN stepped \cup other      \* exactly on the boundary
             ELSE other
 
 \* ---------------------------------------------------------------------------
-\* the Progress object: [i, total]
+\* the Progress object: [i, total, n]  (n = notification step in percent)
 \* ---------------------------------------------------------------------------
 \* increment(step, force): [i', raised] then Update
 IncrementOutcomes(recent, o, step, force) ==
     LET i1 == o.i + step IN
     IF i1 > o.total THEN {[o |-> [o EXCEPT !.i = i1], u |-> Outcome(recent, <<>>, "ValueError")]}       \* i is updated before the check
-    ELSE {[o |-> [o EXCEPT !.i = i1], u |-> u] : u \in Update(recent, i1, o.total, force)}
+    ELSE {[o |-> [o EXCEPT !.i = i1], u |-> u] : u \in Update(recent, i1, o.total, force, o.n)}
 
 \* set_message(message, i, total, force): i >= 0 resets the counter to 0 (sic), total >= 0 replaces the total
 SetMessageOutcomes(recent, o, seti, newtotal, force) ==
-    LET o1 == [i |-> IF seti THEN 0 ELSE o.i, total |-> IF newtotal >= 0 THEN newtotal ELSE o.total] IN
-    {[o |-> o1, u |-> u] : u \in Update(recent, o1.i, o1.total, force)}
+    LET o1 == [i |-> IF seti THEN 0 ELSE o.i, total |-> IF newtotal >= 0 THEN newtotal ELSE o.total, n |-> o.n] IN
+    {[o |-> o1, u |-> u] : u \in Update(recent, o1.i, o1.total, force, o.n)}
 
 SetOutcomes(recent, o, i) ==
     IF i > o.total THEN {[o |-> o, u |-> Outcome(recent, <<>>, "ValueError")]}
-    ELSE {[o |-> [o EXCEPT !.i = i], u |-> u] : u \in Update(recent, i, o.total, FALSE)}
+    ELSE {[o |-> [o EXCEPT !.i = i], u |-> u] : u \in Update(recent, i, o.total, FALSE, o.n)}
 
 \* ---------------------------------------------------------------------------
 \* step accounting of the entry points: what the total is set to, and how many increments the
